@@ -37,6 +37,12 @@ FRAGS = [
     "&amp;", "&#0;", "&bogus;", "<!--", "-->", "<![CDATA[", "]]>", '<?xml version="1.0"?>', "<?", "<!DOCTYPE x>",
     "\x00", "\xe9\xff", "abc", "\n", V3, V0,
 ]
+# complete, well-formed elements with a known root tag that are not valid messages (long: combined with
+# every core fragment in both orders instead of taking part in the full product)
+EXTRA = [
+    '<getProperties version="1.7"><br/></getProperties>',
+    '<setTextVector device="d" name="n" state="Ok"><oneTexd name="e">v</oneTexd></setTextVector>',
+]
 VALID = {V0, V1, V2, V3}
 THRESHOLDS = [("16", 16), ("128", 128), ("2048", 2048), ("None", None)]
 
@@ -310,6 +316,9 @@ INVALID_WF = [
     '<setTextVector device="d" name="n"><oneText name="e">v</oneText></setTextVector>',
     '<getProperties/>',
     '<defTextVector device="d" name="n" state="Purple" perm="rw"/>',
+    '<getProperties version="1.7"><br/></getProperties>',
+    '<setTextVector device="d" name="n" state="Ok"><oneTexd name="e">v</oneTexd></setTextVector>',
+    '<newNumberVector device="d" name="n"><oneNumber name="x">1</oneNumber><oneText name="y">z</oneText></newNumberVector>',
 ]
 
 
@@ -362,7 +371,14 @@ def run_shard(shard):
     res = {"states": 0, "transitions": 0, "streams": 0, "graphs": 0, "modeA": 0, "modeB": 0, "deliveries": 0, "violations": [], "samples": [], "counters": {}}
     sig = {}
 
+    hangs = [0]
+
+    class TooManyHangs(Exception):
+        pass
+
     def record(label, S, T, tname, fails, pieces, extra):
+        if any(c in ("hang", "livelock") for c, _, _ in fails):
+            hangs[0] += 1
         for clause, disc, whatmsg in fails:
             key = (clause, disc)
             if key in sig:
@@ -378,9 +394,19 @@ def run_shard(shard):
 
     if what in ("frag-graph", "frag-feed"):
         n, fi = shard[2], shard[3]
+        seqs = []
         for m in range(1, n + 1) if what == "frag-graph" else (n,):
             for rest in itertools.product(FRAGS, repeat=m - 1):
-                frs = (FRAGS[fi],) + rest
+                seqs.append((FRAGS[fi],) + rest)
+        if what == "frag-graph":
+            for x in EXTRA:
+                seqs.append((FRAGS[fi], x))
+                seqs.append((x, FRAGS[fi]))
+                seqs.append((x, FRAGS[fi], V1))
+            if fi == 0:
+                seqs += [(x,) for x in EXTRA] + [(x, y) for x in EXTRA for y in EXTRA]
+        if True:
+            for frs in seqs:
                 S, modeA, numbered = classify_stream(frs)
                 res["streams"] += 1
                 res["modeA" if modeA else "modeB"] += 1
@@ -426,6 +452,10 @@ def run_shard(shard):
                     res["graphs"] += 1 if what == "frag-graph" else 0
                     for fails, pieces in r["violations"]:
                         record("frags%r" % (frs,), S, T, tname, fails, pieces, extra)
+                    if hangs[0] >= 6:
+                        res["violations"] = list(sig.values())
+                        res["capped"] = 1
+                        return res  # the finding is recorded; every further graph would burn the watchdog again
         if fi == 0 and what == "frag-graph":
             res["samples"].append({"fragment_sequence": [FRAGS[0], FRAGS[3]], "thresholds": [t for t, _ in THRESHOLDS]})
     else:
@@ -459,6 +489,10 @@ def run_shard(shard):
                 res["transitions"] += r["transitions"]
                 for fails, pieces in r["violations"]:
                     record(label, S, T, tname, fails, pieces, {"mode": "B", "numbered": numbered, "corrupt_end": len(corrupt)})
+                if hangs[0] >= 6:
+                    res["violations"] = list(sig.values())
+                    res["capped"] = 1
+                    return res
             if ci == 40:
                 res["samples"].append({"corrupt_element": corrupt, "followed_by": [numbered_msg(0), numbered_msg(1), "..."], "thresholds": [64, 2048, None]})
     res["violations"] = list(sig.values())
@@ -476,7 +510,7 @@ def finish(tier, seed, m):
         "streams_corruption_mode": m["modeB"],
         "deliveries_in_promptness_mode": m["deliveries"],
         "samples": m["samples"][:4],
-        "exhaustive": True,
+        "exhaustive": not m.get("capped", 0),
         "explanation": "transitions = process() calls executed on the real Buffer; graphs explored to fixpoint (all partitions); "
         "longer streams are fed whole / per character / fixed chunks / every single cut (stated in DESIGN.md C11)",
     }
